@@ -225,21 +225,23 @@ def optimiseAll (oi : List Group → Group → Group) (gs : List Group) : List S
 
 /-! ### `create_unbranched_segment_group_branches` -/
 
+/-- the root segment opens the first group: its proximal is made explicit as well
+    (`if seg.proximal is None and seg.parent is not None: seg.proximal = self.get_actual_proximal(seg.id)`) -/
+def rootProx (segs : List Seg) (lim : Nat) (s : Seg) (root : Nat) : Except Err (List Seg) :=
+  if s.prox = none ∧ s.parent ≠ none then
+    match actualProximal segs lim s.id with
+    | .ok p => .ok (setProx segs root p)
+    | .error e => .error e
+  else .ok segs
+
 /-- the sectioning phase: everything before the optional reorder / optimise passes.
     `cache` = `getattr(self, "adjacency_list", None)`. -/
 def sectionPhase (cell : St) (cache : Option Adj) (root lim fuel : Nat) : Except Err St :=
-  let adj := match cache with | some a => a | none => adjacency cell.segs
+  let adj := cache.getD (adjacency cell.segs)
   match getSegment cell.segs root with
   | none => .error .noSegment
   | some s =>
-    -- the root segment opens the first group: its proximal is made explicit as well
-    let segs1 : Except Err (List Seg) :=
-      if s.prox = none ∧ s.parent ≠ none then
-        match actualProximal cell.segs lim s.id with
-        | .ok p => .ok (setProx cell.segs root p)
-        | .error e => .error e
-      else .ok cell.segs
-    match segs1 with
+    match rootProx cell.segs lim s root with
     | .error e => .error e
     | .ok segs' =>
       let (gs, gi) := addGroup cell.groups (genName cell.groups.length s.id)
@@ -365,6 +367,14 @@ def hypB (cell : St) (cache : Option Adj) (root lim fuel : Nat) : Bool :=
   | some t =>
     nodupB (preorder t) && decide (nest t + 1 ≤ lim) && decide (need t ≤ fuel) &&
     (preorder t).all (fun x => isOk (actualProximal cell.segs (lim - nest t - 1) x)) &&
-    cell.groups.all (fun g => !(newGroups cell.groups.length t).any (fun n => n.id == g.id))
+    cell.groups.all (fun g => !(newGroups cell.groups.length t).any (fun n => n.id == g.id)) &&
+    cell.groups.all (fun g => g.id != "")
+
+instance : DecidableEq (Except Err St) := fun a b =>
+  match a, b with
+  | .ok x, .ok y => if h : x = y then isTrue (by rw [h]) else isFalse (by intro e; cases e; exact h rfl)
+  | .error x, .error y => if h : x = y then isTrue (by rw [h]) else isFalse (by intro e; cases e; exact h rfl)
+  | .ok _, .error _ => isFalse (by intro e; cases e)
+  | .error _, .ok _ => isFalse (by intro e; cases e)
 
 end NmlVerif.Section
